@@ -170,3 +170,71 @@ func TestC09_windowed(t *testing.T) {
 		Gen:  genC09b, Run: runC09b,
 	})
 }
+
+// winFold is the reference model of one WindowedLimit (the fold runC09b uses, as a reusable value): feed it the
+// samples the wrapper is given, it returns the aggregate the delegate must receive when the sample closes a window.
+type winFold struct {
+	size           int32
+	min, max, thr  int64
+	nextUpdate     int64
+	minRTT, sum    int64
+	count, maxInf  int
+	drop           bool
+	Ambiguous      bool // a window without any success was closed with min != max window: the next period is not specified
+	DropNotClosing bool
+	dropBefore     bool
+}
+
+func newWinFold(size int32, min, max, thr int64) *winFold {
+	return &winFold{size: size, min: min, max: max, thr: thr, minRTT: math.MaxInt64}
+}
+
+func (f *winFold) feed(s Sample) *Sample {
+	if f.Ambiguous || s.RTT < f.thr {
+		return nil
+	}
+	if s.Inf > f.maxInf {
+		f.maxInf = s.Inf
+	}
+	if s.Drop {
+		f.drop = true
+	} else {
+		f.count++
+		f.sum += s.RTT
+		if s.RTT < f.minRTT {
+			f.minRTT = s.RTT
+		}
+	}
+	end := s.Start + s.RTT
+	if !(end > f.nextUpdate && int32(s.Inf) > f.size) {
+		if s.Drop {
+			f.dropBefore = true
+		}
+		return nil
+	}
+	avg := int64(0)
+	if f.count > 0 {
+		avg = f.sum / int64(f.count)
+	}
+	out := &Sample{Start: s.Start, RTT: avg, Inf: f.maxInf, Drop: f.drop}
+	if f.dropBefore && !s.Drop {
+		f.DropNotClosing = true
+	}
+	period := f.max
+	if f.minRTT == math.MaxInt64 {
+		if f.min != f.max {
+			f.Ambiguous = true
+		}
+	} else {
+		period = f.minRTT * 2
+		if period < f.min {
+			period = f.min
+		}
+		if period > f.max {
+			period = f.max
+		}
+	}
+	f.nextUpdate = end + period
+	f.minRTT, f.sum, f.count, f.maxInf, f.drop, f.dropBefore = math.MaxInt64, 0, 0, 0, false, false
+	return out
+}
